@@ -12,8 +12,9 @@ import time
 import traceback
 
 ROOT = os.path.dirname(os.path.dirname(os.path.abspath(__file__)))
-EVIDENCE_DIR = os.path.join(ROOT, "evidence")
-REPLAY_DIR = os.path.join(ROOT, "out", "replays")
+# seeded trial runs (tools/) point these at scratch directories so that they never overwrite the evidence of the unchanged tree
+EVIDENCE_DIR = os.environ.get("VERIF_EVIDENCE_DIR") or os.path.join(ROOT, "evidence")
+REPLAY_DIR = os.environ.get("VERIF_REPLAY_DIR") or os.path.join(ROOT, "out", "replays")
 KNOWN_FILE = os.path.join(ROOT, "known_findings.json")
 
 
